@@ -569,14 +569,16 @@ func (g *c04Gen) rawLogEntry(leafEnc []byte, e c04Entry) {
 	}
 	type tc struct {
 		leaf, extra []byte
-		clean       bool
+		clean       bool // both parts are complete encodings
+		mustErr     bool // a byte was added to / removed from a complete encoding: a complete parse has to refuse it
 	}
-	cases := []tc{{leafEnc, extra, true},
-		{append(append([]byte{}, leafEnc...), 0), extra, false},
-		{leafEnc, append(append([]byte{}, extra...), byte(r.Intn(256))), false},
-		{leafEnc[:len(leafEnc)-1], extra, false}}
+	cases := []tc{{leafEnc, extra, true, false},
+		{append(append([]byte{}, leafEnc...), 0), extra, false, true},
+		{leafEnc, append(append([]byte{}, extra...), byte(r.Intn(256))), false, true},
+		{leafEnc[:len(leafEnc)-1], extra, false, true},
+		{leafEnc, extra[:len(extra)-1], false, true}}
 	for _, m := range g.mutants(extra)[2:] {
-		cases = append(cases, tc{leafEnc, m, false})
+		cases = append(cases, tc{leafEnc, m, false, false})
 	}
 	for _, c := range cases {
 		g.out.Count("mode:rawlogentry")
@@ -592,8 +594,8 @@ func (g *c04Gen) rawLogEntry(leafEnc []byte, e c04Entry) {
 			g.out.Fail("rawlogentry "+op, fmt.Sprintf("RawLogEntryFromLeaf: err=%v for entry type %d with extra data of kind %s", err, e.et, kind))
 			continue
 		}
-		if !c.clean && len(c.leaf) != len(leafEnc) && err == nil {
-			g.out.Fail("rawlogentry "+op, "RawLogEntryFromLeaf accepted a leaf input with a byte added or removed")
+		if c.mustErr && err == nil {
+			g.out.Fail("rawlogentry "+op, "RawLogEntryFromLeaf accepted a leaf input / extra data with a byte added or removed")
 			continue
 		}
 		if err != nil {
@@ -677,7 +679,7 @@ func TestVerifC04(t *testing.T) {
 		g.sctListCase([][]byte{g.bytes(total - 2)})
 	}
 	g.sctListCase([][]byte{g.bytes(30000), g.bytes(30000), g.bytes(5394)}) // body 65400 in three SCTs
-	n := verifkit.N(1500, 40000)
+	n := verifkit.N(1500, 120000)
 	for it := 0; it < n; it++ {
 		g.one(it)
 	}
